@@ -226,11 +226,22 @@ func (g *Gen) filterSpec(typedOnly bool, wantMatch bool) *FSpec {
 		base = g.M.Ents[e].Mask
 	}
 	if k == FTyped {
-		t := g.tupleWhere(func(t int, cs []int) bool {
-			return typed.Tuples[t].NewFilter != nil && len(cs) <= 4 && base.Contains(SetOf(cs...))
-		})
-		if t < 0 {
-			t = g.tupleWhere(func(t int, cs []int) bool { return typed.Tuples[t].NewFilter != nil && base.Contains(SetOf(cs...)) })
+		// every arity is separately generated code: choose the arity first, uniformly among those that can match
+		byArity := map[int][]int{}
+		var arities []int
+		for ti := range typed.Tuples {
+			cs := typed.Tuples[ti].Comps
+			if typed.Tuples[ti].NewFilter != nil && base.Contains(SetOf(cs...)) {
+				if len(byArity[len(cs)]) == 0 {
+					arities = append(arities, len(cs))
+				}
+				byArity[len(cs)] = append(byArity[len(cs)], ti)
+			}
+		}
+		t := -1
+		if len(arities) > 0 {
+			l := byArity[arities[g.R.Intn(len(arities))]]
+			t = l[g.R.Intn(len(l))]
 		}
 		if t < 0 {
 			if wantMatch {
